@@ -673,6 +673,40 @@ def opINC (args obs : List String) : P String := do
     | _ => pure (reply false false m)
   | _ => throw "INC: arity"
 
+/-- `SC <fmt> <r> <o> <scale> <bias> <spelling> [v..] | [codes] [get_val] upper lower precision ov un inacc` -/
+def opSC (args obs : List String) : P String := do
+  match args with
+  | [s, n, f, r, o, sc, bi, _spelling, vs] =>
+    let fmt ← pFmt s n f
+    let r ← pRounding r
+    let o ← pOverflow o
+    let sc ← pRat sc
+    let bi ← pRat bi
+    let vs ← pList pRat vs
+    if sc = 0 then return "SKIP"
+    let cs := vs.map (storeScaled fmt r o sc bi)
+    let fl := vs.map (flagsScaled fmt r o sc bi)
+    pure (functional ([showList toString cs, showList showRat (cs.map (readScaled fmt sc bi)),
+                       showRat (upperScaled fmt sc bi), showRat (lowerScaled fmt sc bi), showRat (precisionScaled fmt sc)]
+                      ++ flagsTok fl) obs)
+  | _ => throw "SC: arity"
+
+/-- `SCI <signed> <scale> <bias> [v..] | s n f [codes]` — size inference of a scaled object. -/
+def opSCI (args obs : List String) : P String := do
+  match args with
+  | [sg, sc, bi, vs] =>
+    let signed : Option Bool := if sg == "n" then none else some (sg == "s")
+    let sc ← pRat sc
+    let bi ← pRat bi
+    let vs ← pList pRat vs
+    if sc = 0 then return "SKIP"
+    match inferScaled signed sc bi vs with
+    | none => pure (reply (isExc obs) (isExc obs) ["ERR"])
+    | some g =>
+      pure (functional [showSigned g.signed, toString g.nword, toString g.nfrac,
+                        showList toString (vs.map (storeScaled g .trunc .saturate sc bi))] obs)
+  | _ => throw "SCI: arity"
+
 /-- `UN <op=neg|pos|abs> <fx> [codes] | s n f [codes]` — unary operators build a default-config object. -/
 def opUN (args obs : List String) : P String := do
   match args with
@@ -707,6 +741,8 @@ def dispatch (op : String) (args obs : List String) : P String :=
   | "NC" => opNC args obs
   | "DR" => opDR args obs
   | "SB" => opSB args obs
+  | "SC" => opSC args obs
+  | "SCI" => opSCI args obs
   | "INF" => opINF args obs
   | "INC" => opINC args obs
   | "BI" => opBI args obs
